@@ -4,7 +4,8 @@ mod hash_union;
 mod models;
 mod panic;
 
-use syn::{Data, DeriveInput, Meta};
+use quote::format_ident;
+use syn::{Data, DeriveInput, GenericParam, Ident, Meta};
 
 use super::TraitHandler;
 use crate::Trait;
@@ -31,4 +32,19 @@ impl TraitHandler for HashHandler {
             },
         }
     }
+}
+
+/// Chooses a name for the `Hasher` type parameter of the generated `hash` method which does not clash with the generic parameters of the type itself.
+pub(crate) fn hasher_generic_ident(ast: &DeriveInput) -> Ident {
+    let mut name = String::from("H");
+
+    while ast.generics.params.iter().any(|param| match param {
+        GenericParam::Type(ty) => ty.ident == name,
+        GenericParam::Const(c) => c.ident == name,
+        GenericParam::Lifetime(_) => false,
+    }) {
+        name.push('H');
+    }
+
+    format_ident!("{}", name)
 }
